@@ -174,7 +174,12 @@ class Harness:
             df, data = self.df.copy(), self.data
             return dict(df=df, data=data, as_df=self.as_df(), settings=self.settings("mcmc_saem", seed), seed=seed)
         if op in ("mean", "mode", "scipy"):
-            df, data = self.sub_cohort(rng.choice([1, 2, 3]))
+            # a sub-cohort, or (one time in three) the very cohort the model was fitted on: same individuals, same count,
+            # so that anything the fit left behind in the model would "fit" the new call
+            if rng.random() < 0.34:
+                df, data = self.df.copy(), self.data
+            else:
+                df, data = self.sub_cohort(rng.choice([1, 2, 3]))
             algo = {"mean": "mean_posterior", "mode": "mode_posterior", "scipy": "scipy_minimize"}[op]
             return dict(df=df, data=data, as_df=self.as_df(), settings=self.settings(algo, seed), seed=seed)
         if op == "est":
